@@ -151,3 +151,22 @@ def x5_print(ctx):
 
 
 RULES = [('X1', x1_pair), ('X2', x2_width), ('X3', x3_patterns), ('X4', x4_getters), ('X5', x5_print)]
+
+
+def x6_unique_fields(ctx):
+    """X6 a pattern that names two fields alike loses one of the matched tokens (shared rule)"""
+    from ..common import unique_field_names
+    unique_field_names(ctx, 'X6', ('from_unixtime', 'to_unixtime'), floor=2)
+
+
+RULES.append(('X6', x6_unique_fields))
+
+
+def x7_zone_offsets(ctx):
+    """Z3 (shared with C11): 'N to date' is shown in the requested zone, whose offset comes from the zone table or the
+    GMT+/-h[:mm] formula of parse_timezone"""
+    from .C11 import z3_table
+    z3_table(ctx)
+
+
+RULES.append(('Z3', x7_zone_offsets))
